@@ -45,6 +45,8 @@ STUB_PATCHES = {
     "to_algebraic": ("common/src/bitboard/square.rs", _hdr("to_algebraic"), "if true { return tables::ALGEBRAIC[(square.0.trailing_zeros() & 63) as usize]; }"),
     "square_string_to_bitboard": ("common/src/bitboard/square.rs", _hdr("square_string_to_bitboard"),
                                   "if true { let b = coordinate.as_bytes(); return Bitboard(1u64 << (((b[1] - b'1') * 8 + (b[0] - b'a')) & 63)); }"),
+    "c13w_gen": ("src/move_generator/mod.rs", r"pub " + _hdr("generate_moves_and_lazily_update_chess_move_effects"), "if true { return self.c13w_generate(board, player); }"),
+    "c13w_label": ("src/chess_move/algebraic_notation.rs", _hdr("chess_move_to_algebraic_notation"), "if true { return kani_verif::c13w::label(chess_move, board, candidate_moves); }"),
     "uf_rook": ("src/move_generator/magic_table.rs", r"pub " + _hdr("get_rook_targets"), "if true { return self.uf_rook(square, blockers); }"),
     "uf_bishop": ("src/move_generator/magic_table.rs", r"pub " + _hdr("get_bishop_targets"), "if true { return self.uf_bishop(square, blockers); }"),
     "magic_new": ("src/move_generator/magic_table.rs", r"pub " + _hdr("new"), "if true { return Self::verif_empty(); }"),
@@ -198,7 +200,7 @@ def _kani_playback(prop, h, fcs, src, target, logs, env, hfile):
 def _fuzz_playback(prop, h, fcs, src, logs, env, hfile):
     """fallback: execute the same harness natively on sparse byte streams until the refuted assertion trips"""
     needles = ", ".join(_rust_str(fc["desc"][:90]) for fc in fcs if fc["desc"])
-    tries = int(os.environ.get("VERIF_FUZZ_TRIES", "400000"))
+    tries = int(os.environ.get("VERIF_FUZZ_TRIES", "1200000"))
     with open(os.path.join(src, hfile), "a") as f:
         f.write(f"\n#[test]\nfn verif_fuzz_{h['name']}() {{\n    crate::verif_ref::fuzz_drive({h['name']}, &[{needles}], {tries});\n}}\n")
     ran, failed, t, lg = _playback_run(h, src, env, logs, f"verif_fuzz_{h['name']}", "fuzz")
